@@ -11,7 +11,7 @@ cleanup() { git -C /repo worktree remove --force "$WT/wt" 2>/dev/null; git -C /r
 trap cleanup EXIT
 cd "$WT/wt"
 export GOFLAGS=-mod=mod GOPROXY=off
-if ! git apply --check "$M/MUTANT/patch.diff" 2>/dev/null; then echo "PATCH-DOES-NOT-APPLY"; git apply --3way "$M/MUTANT/patch.diff" 2>&1 | tail -3; fi
+if ! git apply --check "$M/MUTANT/patch.diff" 2>/dev/null; then echo "PATCH-NEEDS-3WAY (context drift against /repo HEAD)"; fi
 # demo placement: root, package as declared
 DEMO=$M/MUTANT/demo_test.go
 DEST=.
